@@ -441,7 +441,25 @@ func runSim(c *SimCase) {
 	c.Events, c.Obs, c.Final, c.Kids = []int{}, []uint64{}, nil, nil
 	c.Timeout, c.Crash = false, ""
 	c.KernelsRun, c.BlocksRun = 0, 0
-	w, r := buildWorld(c)
+	var w *world
+	var r *runner.Runner
+	func() { // loading the trace directory runs the real reader, which panics on files it rejects
+		defer func() {
+			if e := recover(); e != nil {
+				msg := fmt.Sprint(e)
+				if le, ok := e.(*log.Entry); ok {
+					msg = le.Message
+				}
+				c.Crash = "while loading the trace directory: " + msg
+			}
+		}()
+		w, r = buildWorld(c)
+	}()
+	if w == nil {
+		c.Kids, c.Final = [][]int{}, []NodeState{}
+		c.Coq = coqSim(c)
+		return
+	}
 	for _, n := range w.nodes {
 		k := n.kids
 		if k == nil {
